@@ -220,11 +220,22 @@ func describe(m []msg, i int) string {
 // compare: receiver must have received exactly the sender's sequence.
 func compare(from, to string, sent, recv []msg) string {
 	if i, ok := sameMsgs(sent, recv); !ok {
-		return fmt.Sprintf("%s -> %s: %s sent %d messages, %s received %d; first difference at #%d: sent %s, received %s",
-			from, to, from, len(sent), to, len(recv), i, describe(sent, i), describe(recv, i))
+		at := ""
+		if i < len(sent) && i < len(recv) && sent[i].Type == recv[i].Type {
+			a, b := sent[i].Payload, recv[i].Payload
+			k := 0
+			for k < len(a) && k < len(b) && a[k] == b[k] {
+				k++
+			}
+			at = fmt.Sprintf(" (payloads differ first at byte %d)", k)
+		}
+		return at2(at, fmt.Sprintf("%s -> %s: %s sent %d messages, %s received %d; first difference at #%d: sent %s, received %s",
+			from, to, from, len(sent), to, len(recv), i, describe(sent, i), describe(recv, i)))
 	}
 	return ""
 }
+
+func at2(at, s string) string { return s + at }
 
 func pingPayloads(sent []msg) [][]byte {
 	var out [][]byte
